@@ -623,6 +623,11 @@ def run(ctx):
         ctx.violation(sig, 'SingleListGrader(%s) on %r: spec wants grade %s/%s, code gave %s [%s]' % (
             describe(r['P']), text(r['text']), clause[1], clause[2], brief_obs(raws[i]), name),
             detail={'P': r['P'], 'text': r['text']})
+    # growth beyond the listed properties: IntervalGrader (a SingleListGrader subclass) scored as its documentation says;
+    # disagreements are drift, never violations of C07
+    if not only or 'interval' in only:
+        from engine.adapters import interval
+        interval.run_part(ctx)
     ctx.extra['outcomes_reached'] = sorted(reached)
     ctx.extra['bounds'] = {
         'tier': ctx.tier,
